@@ -299,16 +299,20 @@ Proof. vm_compute. split; reflexivity. Qed.
 (** ---------- C06 (e) at the level of received lines ---------- *)
 From Raven Require Import Base.GoStr Model.ProtoLine.
 
-Lemma one_tagged_per_line t : replies_ok t = true ->
-  forall line, 2 <= length (fields (trim_space line)) -> tagged_for_line t line = (1, 1).
+Lemma one_tagged_per_line t : replies_ok t = true -> f_short_tagged t = true ->
+  forall line, 1 <= length (fields (trim_space line)) -> tagged_for_line t line = (1, 1).
 Proof.
-  intros R line L. unfold tagged_for_line, classify_line.
+  intros R ST line L. unfold tagged_for_line, classify_line.
   destruct (fields (trim_space line)) as [|a [|b l]]; simpl in L; try lia.
-  apply replies_once. exact R.
+  - rewrite ST. reflexivity.
+  - apply replies_once. exact R.
 Qed.
 
-Lemma tag_only_line_untagged t : tagged_for_line t (S_ "a1") = (0, 0) /\ classify_line (S_ "a1") = LUntaggedBad.
-Proof. split; vm_compute; reflexivity. Qed.
+(** regression witness: before the fix (f_short_tagged = false) a tag-only line got no tagged completion *)
+Lemma tag_only_line_was_untagged t : f_short_tagged t = false ->
+  tagged_for_line t (S_ "a1") = (0, 0) /\ classify_line (S_ "a1") = LShort (S_ "a1").
+Proof. intro H. unfold tagged_for_line. split; [|vm_compute; reflexivity].
+  change (classify_line (S_ "a1")) with (LShort (S_ "a1")). rewrite H. reflexivity. Qed.
 
 (** ---------- the session becomes authenticated only in a login line that is
     answered OK, on TLS, after a 200 ---------- *)
